@@ -161,3 +161,57 @@ func init() {
 		return c18Verdict(r.Calls, r.Loose, ex.Multi)
 	}
 }
+
+// c18Consumers: second queries that look at every part of an intermediate
+// result (its container kinds, its elements' kinds, its numbers).
+var c18Consumers = []string{"@", "to_string(@)", "type(@)", "[@, @]", "to_array(@)", "{a: @}.a", "@ == @", "length(@)", "[0]", "[-1]", "[1]", "[*]", "[]", "reverse(@)", "[::2]", "[::-1]", "[1:]", "[?@]",
+	"join('', @)", "join(',', [*].to_string(@))", "sort(@)", "max(@)", "min(@)", "sum(@)", "avg(@)", "[*][0]", "[0][-1]", "[0][0]", "[*].k", "[*].id", "map(&@, @)", "map(&type(@), @)", "map(&length(@), @)", "[*][*]", "[][]",
+	"keys(@)", "values(@)", "*", "items(@)", "merge(@, @)", "*.length(@)", "*[0]", "upper(@)", "abs(@)", "@ + `1`", "-@", "ceil(@)", "@ > `0`", "contains(@, `1`)", "contains(@, 'a')", "zip(@, @)", "from_items(items(@))",
+	"sort_by(@, &to_string(@))", "group_by(@, &type(@))", "not_null(@[0], @)", "[0] == [1]", "length([0])", "[*].length(@)", "type([0])", "[*].type(@)", "to_number(@)", "@[0] + @[1]", "starts_with([0], 'a')", "split([0], '')"}
+
+// C18 (functions): the result of every built-in, for every kind of argument,
+// is plain JSON and can be queried again with the same answers as e1 | e2.
+func TestC18_Funcs(t *testing.T) {
+	c := collector("C18", "funcs")
+	rapid.Check(t, func(t *rapid.T) {
+		e1, doc, name := genCall(t)
+		t2 := gen.Pick(t, "consumer", c18Consumers)
+		pr := ast.Parse(t2)
+		if pr.Verdict != ast.In {
+			t.Fatalf("HARNESS-BUG: consumer %q does not parse: %s", t2, pr.Reason)
+		}
+		c.Case()
+		piped := ast.Bin("|", e1, pr.Expr)
+		if model.Static(piped).RefAtValue && kfOpen("expref-at-value-position") {
+			c.Exclude("expref-at-value-position")
+			return
+		}
+		r1, _ := model.Eval(e1, doc)
+		if r1.Undet != "" && containsPad(e1) {
+			c.Skip("pad-of-undetermined-size")
+			return
+		}
+		pm, _ := model.Eval(piped, doc)
+		loose := enumeratesMembers(piped)
+		if pm.Undet != "" && loose {
+			c.Skip(pm.Undet)
+			return
+		}
+		multi := pm.Err.Count() > 1 || pm.Undet != ""
+		t1 := ast.RenderWith(e1, gen.Chooser{T: t})
+		tp := ast.RenderWith(piped, gen.Chooser{T: t})
+		node := run.FromVal(doc)
+		calls := []run.Call{{API: "search", Expr: t1, Doc: &node}, {API: "search", Expr: t2}, {API: "search", Expr: tp, Doc: &node}}
+		run.Watch(c, "funcs", calls...)
+		if msg := c18Verdict(calls, loose, multi); msg != "" {
+			c.Fail(t, run.Replay{Check: "funcs", Kind: "custom:c18", Calls: calls, Loose: loose, Message: msg, Extra: mustJSON(map[string]any{"multi_fault": multi})}, name+":"+msg[:minInt(len(msg), 30)])
+			return
+		}
+		c.Label(name)
+		if r1.IsValue() && r1.V.K != jv.Null && t2 != "@" {
+			c.NonTrivial(t1+"\x00"+t2+"\x00"+doc.JSON(), func() any {
+				return map[string]any{"e1": t1, "e2": t2, "doc": doc.JSON(), "intermediate": truncate(r1.V.JSON(), 200)}
+			})
+		}
+	})
+}
